@@ -707,7 +707,7 @@ static void run_exec(const struct spec *s, int cfg, int mode, const struct dp_bu
 /* ------------------------------------------------------------------ */
 /* enumeration                                                          */
 
-struct item { uint32_t spec; uint8_t cfg, mode, plan; };   /* plan: 0 full only, 1 every prefix, 2 tcp cut set, 3 tcp every single cut, 4 tcp every pair of cuts */
+struct item { uint32_t spec; uint8_t cfg, mode, plan; };   /* plan: 0 full only, 1 every prefix, 2 tcp cut set, 3 tcp every single cut, 4 tcp every pair of cuts, 5 pairs of cuts on a stride */
 static struct spec *specs; static size_t n_specs, cap_specs;
 static struct item *items; static size_t n_items, cap_items;
 static uint64_t *dedupe; static size_t dedupe_cap;
@@ -783,12 +783,12 @@ static void generate(const char *tier)
 				if (dev <= 1) { add_item(id, 0, M_DIRECT, 1); add_item(id, 1, M_DIRECT, 1); add_item(id, 2, M_DIRECT, 1); add_item(id, 3, M_UDP, 1); add_item(id, 1, M_TCP, 2); add_item(id, 3, M_TCP, 0); }
 				else if (qt == QT_A) add_item(id, 3, M_UDP, 0);
 			} else {
-				/* thorough: 3 deviations: every prefix for A, and for AAAA/PTR when the answer dimension is one of them (else whole message);
-				 * <=2: every prefix direct under all four configurations and over UDP, TCP cut plans + whole;
-				 * <=1: every single TCP cut, every pair of TCP cuts, every prefix over TCP */
-				add_item(id, 3, M_DIRECT, (dev <= 2 || qt == QT_A || a != 1) ? 1 : 0);
+				/* thorough: <=2 deviations: every prefix direct under all four configurations and over UDP, TCP cut plans + whole;
+				 * <=1: every single TCP cut, pairs of TCP cuts (all pairs for the unmodified reply, a stride otherwise), every prefix over TCP;
+				 * exactly 3 deviations: whole message.  (3 deviations x every prefix was tried: ~10x the cost, not kept.) */
+				add_item(id, 3, M_DIRECT, dev <= 2 ? 1 : 0);
 				if (dev <= 2) { add_item(id, 0, M_DIRECT, 1); add_item(id, 1, M_DIRECT, 1); add_item(id, 2, M_DIRECT, 1); add_item(id, 3, M_UDP, 1); add_item(id, 3, M_TCP, 2); add_item(id, 3, M_TCP, 0); }
-				if (dev <= 1) { add_item(id, 1, M_TCP, 3); add_item(id, 3, M_TCP, 1); add_item(id, 3, M_TCP, 4); }
+				if (dev <= 1) { add_item(id, 1, M_TCP, 3); add_item(id, 3, M_TCP, 1); add_item(id, 3, M_TCP, dev == 0 ? 4 : 5); }
 			}
 		}
 		/* mutated captures of a compressed CNAME + address + SOA reply */
@@ -847,7 +847,7 @@ static void item_fn(uint64_t idx)
 	} else if (it->plan == 3) {
 		for (size_t cut = 1; cut < w.n + 2; cut++) { snprintf(g_ctx, sizeof g_ctx, "%s cut=%zu len=%zu", d, cut, w.n); run_exec(s, it->cfg, it->mode, &w, w.n, cut, 0, pq); }
 	} else {	/* every pair of cuts of the length-prefixed stream */
-		size_t step = (w.n + 2) / 120 + 1;       /* every pair up to 120 octets; a stride for longer messages (keeps one item well below the hang watchdog) */
+		size_t step = it->plan == 4 ? (w.n + 2) / 120 + 1 : (w.n + 2) / 35 + 1;   /* plan 4: every pair (up to 120 octets); plan 5: a stride giving <= ~600 pairs */
 		for (size_t c1 = 1; c1 < w.n + 1; c1 += step) for (size_t c2 = c1 + 1; c2 < w.n + 2; c2 += step) { snprintf(g_ctx, sizeof g_ctx, "%s cuts=%zu,%zu len=%zu", d, c1, c2, w.n); run_exec(s, it->cfg, it->mode, &w, w.n, c1, c2, pq); }
 		MC_COUNT("items_all_tcp_cut_pairs");
 	}
